@@ -80,7 +80,7 @@ func init() {
 			return 1500
 		},
 		CounterFloors: func(tier string) map[string]int64 {
-			return map[string]int64{"events": 200000, "ev_Paint": 5000, "ev_DrawText": 5000, "ev_Clip": 500, "ev_Transform": 2000, "anchors_checked": 1000, "internal_links_checked": 500, "bookmarks_checked": 1000, "dangling_links_dropped": 100, "metadata_docs": 500, "multi_page_struct": 200, "dates_checked": 500, "dates_differ": 200, "docs_collapsed-borders": 60, "docs_svg-stroke": 60}
+			return map[string]int64{"events": 200000, "ev_Paint": 5000, "ev_DrawText": 5000, "ev_Clip": 500, "ev_Transform": 2000, "anchors_checked": 1000, "internal_links_checked": 500, "bookmarks_checked": 1000, "dangling_links_dropped": 100, "metadata_docs": 500, "multi_page_struct": 200, "dates_checked": 500, "dates_differ": 200, "docs_collapsed-borders": 60, "docs_svg-stroke": 60, "docs_transform_modelled": 400, "anchors_under_transform": 200, "dup_ids_under_transform": 50}
 		},
 		Assumptions: []string{
 			"the call-sequence rules are those written in backend/graphics.go's method comments (current point before LineTo/CubicTo/ClosePath, Paint/Clip act on a non-empty current path, fonts registered with AddFont on the canvas before DrawText)",
@@ -115,28 +115,119 @@ type bmSite struct {
 	label string
 }
 
+// aff is the reference model of a CSS 2D transform restricted to translations and scalings:
+// x' = sx*x + tx, y' = sy*y + ty (css-transforms-1 §3, §6: the functions of the list are multiplied
+// left to right, the product is applied around the transform origin, transforms of ancestors
+// accumulate; non-replaced inline boxes are not transformable).
+type aff struct{ sx, sy, tx, ty float64 }
+
+var affID = aff{1, 1, 0, 0}
+
+// then(o, i): apply i first, then o
+func then(o, i aff) aff {
+	return aff{o.sx * i.sx, o.sy * i.sy, o.sx*i.tx + o.tx, o.sy*i.ty + o.ty}
+}
+
+// boxTransform returns the transform of the box's own `transform` property; ok is false when the list
+// holds a function outside the model (rotate, skew, matrix, odd units).
+func boxTransform(b bo.Box) (m aff, has, ok bool) {
+	f := b.Box()
+	tr := f.Style.GetTransform()
+	if len(tr) == 0 || bo.InlineT.IsInstance(b) {
+		return affID, false, true
+	}
+	bw, bh := float64(f.BorderWidth()), float64(f.BorderHeight())
+	res := func(d pr.Dimension, ref float64) (float64, bool) {
+		switch d.Unit {
+		case pr.Px:
+			return float64(d.Value), true
+		case pr.Perc:
+			return float64(d.Value) * ref / 100, true
+		}
+		return 0, false
+	}
+	or := f.Style.GetTransformOrigin()
+	ox, ok1 := res(or[0], bw)
+	oy, ok2 := res(or[1], bh)
+	if !ok1 || !ok2 {
+		return affID, true, false
+	}
+	ox += float64(f.BorderBoxX())
+	oy += float64(f.BorderBoxY())
+	l := affID
+	for _, t := range tr {
+		switch {
+		case t.String == "translate" && len(t.Dimensions) == 2:
+			x, okx := res(t.Dimensions[0], bw)
+			y, oky := res(t.Dimensions[1], bh)
+			if !okx || !oky {
+				return affID, true, false
+			}
+			l = then(l, aff{1, 1, x, y})
+		case t.String == "scale" && len(t.Dimensions) == 2 && t.Dimensions[0].Unit == pr.Scalar && t.Dimensions[1].Unit == pr.Scalar:
+			l = then(l, aff{float64(t.Dimensions[0].Value), float64(t.Dimensions[1].Value), 0, 0})
+		default:
+			return affID, true, false
+		}
+	}
+	m = then(aff{1, 1, ox, oy}, then(l, aff{1, 1, -ox, -oy}))
+	if math.IsNaN(m.sx+m.sy+m.tx+m.ty) || math.IsInf(m.sx+m.sy+m.tx+m.ty, 0) {
+		return affID, true, false
+	}
+	return m, true, true
+}
+
+type walkState struct {
+	seen         map[string]bool
+	seenOnPage   map[string]bool // ids met on the current page
+	anchors      []anchorSite
+	links        []linkSite
+	bms          []bmSite
+	hasTransform bool // some box is transformed
+	unmodelled   bool // some transform is outside the translate/scale model: positions are not judged
+	anchorsTf    int  // anchors whose position went through a non-identity transform
+	dupTf        int  // later boxes of an id already met on the same page, lying in/on a transformed box
+}
+
 // walk collects anchors (first box per name per document), links and bookmarks from a laid-out page,
-// the same way a reader of the box tree would: depth first, AllChildren.
-func walk(b bo.Box, page int, seen map[string]bool, anchors *[]anchorSite, links *[]linkSite, bms *[]bmSite, hasTransform *bool) {
+// the same way a reader of the box tree would: depth first, AllChildren. cur maps the box's own
+// coordinates to page coordinates (transforms of the ancestors).
+func walk(b bo.Box, page int, w *walkState, cur aff, under bool) {
 	f := b.Box()
 	if f.Style != nil {
-		if len(f.Style.GetTransform()) != 0 {
-			*hasTransform = true
+		m, has, ok := boxTransform(b)
+		if has {
+			w.hasTransform = true
+			under = true
+			if !ok {
+				w.unmodelled = true
+			} else {
+				cur = then(cur, m)
+			}
 		}
-		if name := string(f.Style.GetAnchor()); name != "" && !seen[name] {
-			seen[name] = true
-			h := bo.HitArea(b)
-			*anchors = append(*anchors, anchorSite{page: page, x: float64(h[0]), y: float64(h[1]), id: name})
+		if name := string(f.Style.GetAnchor()); name != "" {
+			if !w.seen[name] {
+				w.seen[name] = true
+				h := bo.HitArea(b)
+				x, y := float64(h[0]), float64(h[1])
+				if cur != affID {
+					w.anchorsTf++
+				}
+				w.anchors = append(w.anchors, anchorSite{page: page, x: cur.sx*x + cur.tx, y: cur.sy*y + cur.ty, id: name})
+			} else if w.seenOnPage[name] && under {
+				w.dupTf++
+			}
+			w.seenOnPage[name] = true
 		}
 		if l := f.Style.GetLink(); !l.IsNone() && !(bo.TextT.IsInstance(b) || bo.LineT.IsInstance(b)) {
-			*links = append(*links, linkSite{page: page, target: l.String, kind: l.Name})
+			w.links = append(w.links, linkSite{page: page, target: l.String, kind: l.Name})
 		}
 		if lvl := f.Style.GetBookmarkLevel(); lvl.Tag != pr.None && lvl.I != 0 && f.BookmarkLabel != "" {
-			*bms = append(*bms, bmSite{page: page, level: lvl.I, label: f.BookmarkLabel})
+			w.bms = append(w.bms, bmSite{page: page, level: lvl.I, label: f.BookmarkLabel})
 		}
 	}
 	for _, c := range b.AllChildren() {
-		walk(c, page, seen, anchors, links, bms, hasTransform)
+		walk(c, page, w, cur, under)
 	}
 }
 
@@ -233,15 +324,16 @@ func check(raw json.RawMessage) fw.Result {
 	}
 
 	// 4. anchors and links against the laid-out pages
-	var (
-		anchors      []anchorSite
-		links        []linkSite
-		bms          []bmSite
-		hasTransform bool
-	)
-	seen := map[string]bool{}
+	w := &walkState{seen: map[string]bool{}}
 	for i, p := range pages {
-		walk(p.VerifPageBox(), i, seen, &anchors, &links, &bms, &hasTransform)
+		w.seenOnPage = map[string]bool{}
+		walk(p.VerifPageBox(), i, w, affID, false)
+	}
+	anchors, links, bms := w.anchors, w.links, w.bms
+	if w.hasTransform && !w.unmodelled {
+		res.Count("docs_transform_modelled", 1)
+		res.Count("anchors_under_transform", int64(w.anchorsTf))
+		res.Count("dup_ids_under_transform", int64(w.dupTf))
 	}
 	defined := map[string]int{} // name -> times defined
 	definedAt := map[string]rec0{}
@@ -267,11 +359,11 @@ func check(raw json.RawMessage) fw.Result {
 			res.Fail("anchor-page", fmt.Sprintf("anchor %q defined on page %d, the first box with that id is on page %d", a.id, got.page, a.page))
 			return res
 		}
-		if !hasTransform {
+		if !w.unmodelled {
 			H := float64(pages[a.page].Height)
 			wx, wy := scale*a.x, H*scale-scale*a.y
 			if !feq(got.x, wx) || !feq(got.y, wy) {
-				res.Fail("anchor-position", fmt.Sprintf("anchor %q at (%g,%g), expected the scaled hit-area origin (%g,%g) of its first box (page %d, zoom %g)", a.id, got.x, got.y, wx, wy, a.page, zoom))
+				res.Fail("anchor-position", fmt.Sprintf("anchor %q at (%g,%g), expected the scaled (transformed) hit-area origin (%g,%g) of the first box with that id (page %d, zoom %g)", a.id, got.x, got.y, wx, wy, a.page, zoom))
 				return res
 			}
 		}
@@ -540,6 +632,19 @@ func genStruct(r *rand.Rand) input {
 	head.WriteString("<style>" + page + " body { font: 10px/1.2 Ahem; margin: 0 } h1,h2,h3,h4,h5,h6 { font-size: 10px; margin: 2px 0 } .hid { display: none } .brk { break-before: page } p { margin: 3px 0 }</style></head><body>")
 	var body strings.Builder
 	idPool := []string{"i1", "i2", "i3", "i4", "dup", "dup"}
+	// one document in two carries CSS transforms (translations and scalings, on the element itself or
+	// on a wrapper, nested now and then) and more duplicate ids: anchors must still be those of the
+	// first element with the id, at its transformed position
+	tf := r.Intn(2) == 0
+	if tf {
+		f.NoTransform = false
+		idPool = []string{"i1", "i2", "dup", "dup", "dup", "dup2", "dup2"}
+	}
+	transforms := []string{
+		"translate(16px, 32px)", "translate(-8px, 4px)", "translate(0px, 64px)", "translate(25%, 50%)",
+		"scale(2)", "scale(0.5, 1.5)", "translate(8px, 4px) scale(2)", "scale(0.5) translate(32px, 16px)",
+	}
+	origins := []string{"", "", "transform-origin: 0 0;", "transform-origin: 100% 100%;", "transform-origin: 8px 25%;"}
 	n := 4 + r.Intn(14)
 	for i := 0; i < n; i++ {
 		hidden := r.Intn(10) == 0
@@ -558,41 +663,67 @@ func genStruct(r *rand.Rand) input {
 			attr += ` class="` + cls + `"`
 		}
 		id := ""
-		if r.Intn(3) == 0 {
+		idOdds := 3
+		if tf {
+			idOdds = 2
+		}
+		if r.Intn(idOdds) == 0 {
 			id = gen.Pick(r, idPool)
 			attr += ` id="` + id + `"`
 			if !hidden {
 				f.IDs = append(f.IDs, id)
 			}
 		}
+		css, open, shut := "", "", ""
+		if tf && r.Intn(5) < 2 {
+			t := "transform: " + gen.Pick(r, transforms) + ";" + gen.Pick(r, origins)
+			switch r.Intn(4) {
+			case 0: // on the element
+				css = t
+			case 1: // on the element and on a wrapper
+				css = t
+				fallthrough
+			default: // on a wrapper
+				open = `<div style="transform: ` + gen.Pick(r, transforms) + ";" + gen.Pick(r, origins) + `">`
+				shut = "</div>"
+			}
+		}
+		body.WriteString(open)
 		switch r.Intn(4) {
 		case 0:
 			lvl := 1 + r.Intn(6)
 			label := fmt.Sprintf("H%d n%d", lvl, i)
-			style := ""
 			level := lvl
 			if r.Intn(6) == 0 {
 				level = 1 + r.Intn(8)
-				style = fmt.Sprintf(` style="bookmark-level: %d"`, level)
+				css += fmt.Sprintf("bookmark-level: %d", level)
 			}
-			body.WriteString(fmt.Sprintf("<h%d%s%s>%s</h%d>", lvl, attr, style, label, lvl))
+			body.WriteString(fmt.Sprintf("<h%d%s%s>%s</h%d>", lvl, attr, styleAttr(css), label, lvl))
 			if !hidden {
 				f.Headings = append(f.Headings, heading{Level: level, Label: label})
 			}
 		case 1:
 			target := gen.Pick(r, []string{"i1", "i2", "i3", "dup", "missing", "nope"})
-			body.WriteString(fmt.Sprintf(`<p%s>see <a href="#%s">link n%d</a> and text text text</p>`, attr, target, i))
+			body.WriteString(fmt.Sprintf(`<p%s%s>see <a href="#%s">link n%d</a> and text text text</p>`, attr, styleAttr(css), target, i))
 			if !hidden {
 				f.LinkTargets = append(f.LinkTargets, target)
 			}
 		case 2:
-			body.WriteString(fmt.Sprintf(`<p%s>para n%d <a href="http://example.invalid/%d">ext</a> aaa bbb ccc ddd eee fff ggg hhh</p>`, attr, i, i))
+			body.WriteString(fmt.Sprintf(`<p%s%s>para n%d <a href="http://example.invalid/%d">ext</a> aaa bbb ccc ddd eee fff ggg hhh</p>`, attr, styleAttr(css), i, i))
 		default:
-			body.WriteString(fmt.Sprintf(`<div%s><span>block n%d</span> lorem ipsum dolor sit amet lorem ipsum</div>`, attr, i))
+			body.WriteString(fmt.Sprintf(`<div%s%s><span>block n%d</span> lorem ipsum dolor sit amet lorem ipsum</div>`, attr, styleAttr(css), i))
 		}
+		body.WriteString(shut)
 	}
 	doc := gen.Doc{HTML: head.String() + body.String() + "</body></html>", Zoom: gen.Pick(r, []float32{1, 0.5, 2.5})}
 	return input{Kind: "struct", Doc: doc, Facts: f}
+}
+
+func styleAttr(css string) string {
+	if css == "" {
+		return ""
+	}
+	return ` style="` + css + `"`
 }
 
 const zeroDate = "0001-01-01T00:00:00Z"
